@@ -176,6 +176,16 @@ def run(x):
         except KeyError as e: res.append("KeyError" + str(e))
     return res
 '''),
+    ("N12 module-level numeric constant", "numeric_constants_folded", '''
+SPAN = 180
+OTHER = 2.5
+def f(v):
+    return v >= SPAN
+def g(SPAN):
+    return SPAN + OTHER
+def run(x):
+    return [f(x * 100), g(x)]
+'''),
     ("N9 all() over a literal tuple", "any_all_expanded", '''
 def run(x):
     return [all(v > x for v in (3, 4, 5)), any(v == x for v in (1, 2))]
